@@ -143,9 +143,90 @@ def decDict : Nat → Bytes → Res (List (Bytes × BVal) × Bytes)
       | .ok (_, _) => .error .syntax
 end
 
+/-! ## The decoder as it is since the repair D21: containers nest at most `maxNesting` deep
+
+`dec` above is the grammar (no bound on nesting; its recursion is bounded by the fuel). The code recurses once per
+nesting level on the goroutine stack, and a few megabytes of `l` used to exhaust it — a fatal error, not a panic. It
+now refuses to open a container below `maxNesting` enclosing ones. `decD k` is that decoder with `k` levels left. -/
+
+def maxNesting : Nat := 10000
+
+mutual
+def decD : Nat → Nat → Bytes → Res (BVal × Bytes)
+  | _, 0, _ => .error .fuel
+  | _, _+1, [] => .error .eof
+  | k, f+1, c :: rest =>
+    if c = cI then
+      match readTerminatedInt cE rest with
+      | .error e => .error e
+      | .ok (i, r) => .ok (.int i, r)
+    else if c = cL then
+      match k with
+      | 0 => .error .syntax          -- "exceeded max nesting depth"
+      | k+1 =>
+        match decListD k f rest with
+        | .error e => .error e
+        | .ok (l, r) => .ok (.list l, r)
+    else if c = cD then
+      match k with
+      | 0 => .error .syntax
+      | k+1 =>
+        match decDictD k f rest with
+        | .error e => .error e
+        | .ok (d, r) => .ok (.dict (normalize d), r)
+    else
+      match readTerminatedInt cColon (c :: rest) with
+      | .error _ => .error .syntax
+      | .ok (len, r) =>
+        if len < 0 then .error .syntax
+        else if r.length < len.toNat then .error .eof
+        else .ok (.str (r.take len.toNat), r.drop len.toNat)
+def decListD : Nat → Nat → Bytes → Res (List BVal × Bytes)
+  | _, 0, _ => .error .fuel
+  | _, _+1, [] => .error .eof
+  | k, f+1, c :: rest =>
+    if c = cE then .ok ([], rest)
+    else match decD k f (c :: rest) with
+      | .error e => .error e
+      | .ok (v, r) =>
+        match decListD k f r with
+        | .error e => .error e
+        | .ok (vs, r') => .ok (v :: vs, r')
+def decDictD : Nat → Nat → Bytes → Res (List (Bytes × BVal) × Bytes)
+  | _, 0, _ => .error .fuel
+  | _, _+1, [] => .error .eof
+  | k, f+1, c :: rest =>
+    if c = cE then .ok ([], rest)
+    else match decD k f (c :: rest) with
+      | .error e => .error e
+      | .ok (.str key, r) =>
+        (match decD k f r with
+        | .error e => .error e
+        | .ok (v, r') =>
+          match decDictD k f r' with
+          | .error e => .error e
+          | .ok (ps, r'') => .ok ((key, v) :: ps, r''))
+      | .ok (_, _) => .error .syntax
+end
+
+/-! nesting depth of a value: 0 for integers and strings, one more than its deepest element for a container -/
+mutual
+def depth : BVal → Nat
+  | .int _ => 0
+  | .str _ => 0
+  | .list l => depthList l + 1
+  | .dict d => depthDict d + 1
+def depthList : List BVal → Nat
+  | [] => 0
+  | v :: vs => max (depth v) (depthList vs)
+def depthDict : List (Bytes × BVal) → Nat
+  | [] => 0
+  | (_, v) :: r => max (depth v) (depthDict r)
+end
+
 /-- `Unmarshal(buf)`: first value of the buffer (trailing bytes are ignored by the code) -/
 def unmarshal (inp : Bytes) : Res BVal :=
-  match dec (2 * inp.length + 2) inp with
+  match decD maxNesting (2 * inp.length + 2) inp with
   | .error e => .error e
   | .ok (v, _) => .ok v
 
@@ -175,7 +256,7 @@ stops (after `n` values or at the first failure) -/
 def decStream : Nat → Bytes → List BVal × Bytes
   | 0, inp => ([], inp)
   | n + 1, inp =>
-    match dec (2 * inp.length + 2) inp with
+    match decD maxNesting (2 * inp.length + 2) inp with
     | .ok (v, r) => let x := decStream n r; (v :: x.1, x.2)
     | .error _ => ([], inp)
 
